@@ -820,8 +820,9 @@ Fixpoint tie (n : nat) : G :=
 
 Definition init_state : pst := {| pos := 0; evs := []; live := [] |}.
 
-(* recursion fuel: the measure 2*remaining + rank decreases at every call-back (DESIGN App. C) *)
-Definition fuel_for : nat := 2 * length inp + 4.
+(* recursion fuel: the measure 3*remaining + rank (stmt 2, param list 1, others 0) decreases at
+   every call-back (Proofs/GrammarA.v) *)
+Definition fuel_for : nat := 3 * length inp + 6.
 
 (* rust: TopEntryPoint::SourceFile.parse: grammar, then DropBomb check, then event::process *)
 Inductive outcome :=
